@@ -379,6 +379,13 @@ func (w *World) killNodeTasks(node int, first *Task) {
 	w.closeDeadNode(n)
 }
 
+// ArmCrash makes the after-th next gate of any task of the node a process death.
+func (w *World) ArmCrash(node, after int) {
+	w.CrashNodeIdx = node
+	w.crashGateCnt = 0
+	w.CrashAtGate = after
+}
+
 // RunTask grants t until it is no longer parked at a gate (step-atomic mode):
 // for an API task that is its end, for a poller the end of the tick.
 func (w *World) RunTask(t *Task) {
